@@ -14,12 +14,16 @@ def run(R):
     R.rule = ("systems 2-4 receptors with 0-3 surplus sources (exactly determined included), finite ub, lb zero/positive, K "
               "none/scalar/vector/matrix, baseline, weights; in- and out-of-gamut targets; variance matrices: default "
               "('heteroscedastic' = squared transformed capture matrix), explicit (propagated through K squared), derived from a "
-              "registered filter uncertainty (estimator); explicit matrices reach the code as an argument of lsq_linear_minimize, registered with "
+              "registered filter uncertainty (estimator; given as standard deviations (2-D) or as SAMPLES of the filter functions (3-D, 2-8 samples, spreads from "
+              "2^-4 down to 2^-12 per source/filter pair, every source with at least one coarse pair; float/Fortran/strided array); the estimator's matrix must then be the "
+              "population variance of the sampled captures, entry by entry to 1e-10 relative); explicit matrices reach the code as an argument of lsq_linear_minimize, registered with "
               "register_system(Epsilon=) or passed to minimize_variance(Epsilon=), as float/whole-number integer/Fortran/strided arrays; the default as None, "
               "the string 'heteroscedastic' or the estimator's default. Histories: ONE estimator (and one caller-held variance array) per system, the "
               "inside and the outside target are fitted one after the other on it and every predicate is evaluated on every call against the "
               "variance VALUES registered at the start (stratified: every block of 5 systems has a matrix-K/default and a non-uniform-vector-K/"
-              "array-valued system); registered state and arguments must be unchanged after each call. With and without an L1 request. For every row: the attainable error is the "
+              "array-valued system); registered state and arguments must be unchanged after each call. With and without an L1 request. Two thirds of the systems get one more call at the end of the history: all targets "
+              "(plus possibly a third one) in ONE call with batch_size 2, 3 or 'full' (batches that divide the rows, a padded last batch, a batch larger than the row count; "
+              "in- and out-of-gamut rows share a batch; one l2_eps, L1 none or one request per row; Fortran/strided target arrays) -- every row of the answer is judged like a single call. For every row: the attainable error is the "
               "exact bounded-LS optimum (Lean-verified KKT); dreye's answer must stay within l2_eps of it, inside the L1 window, "
               "report B_var = eps x^2 exactly, and carry a certificate var(x) <= var(y) + delta for EVERY y of the second-stage set "
               "(theorem minvar_opt_of_cert). Non-trivial: every row (the variance objective is never trivially optimal).")
@@ -27,7 +31,7 @@ def run(R):
     rows1 = []
     for si in range(nsys):
         rng = R.rng(1, si)
-        strat = si % 5       # stratification: 0 = matrix K / default model, 1 = non-uniform vector K / array-valued model, others random
+        strat = si % 5       # stratification: 0 = matrix K / default model, 1 = non-uniform vector K / array-valued model, 3 = sampled filter uncertainty, others random
         nf = int(rng.integers(2, 5)); ns = nf + int(rng.integers(0, 4))
         A = gen_A(rng, nf, ns, lo=0.25, hi=3.0, bits=2)
         kk, K = gen_K(rng, nf, kinds=(("matrix",) if strat == 0 else ("vector",) if strat == 1 else ("none", "scalar", "vector", "matrix")))
@@ -41,6 +45,8 @@ def run(R):
         w = None if rng.integers(2) else dyadic(rng, 0.5, 2, 2, size=nf)
         wv = np.ones(nf) if w is None else w
         ek = "default" if strat == 0 else str(rng.choice(["explicit", "uncertainty"] if strat == 1 else ["default", "explicit", "uncertainty"]))
+        if strat == 3:
+            ek = "uncertainty"      # stratification: every block of 5 systems has one whose variance model comes from sampled filter functions
         Eps = None          # pristine VALUES of the variance matrix (what the model sees); never handed to the implementation
         Eps_given = None    # the caller's array: the same object is handed to every call of this system's history
         sigf = None
@@ -61,10 +67,34 @@ def run(R):
             via = "estimator"; route = "uncertainty"
             sigf = np.hstack([np.zeros((nf, 1)), dyadic(rng, 0.125, 1, 3, size=(nf, ns)), np.zeros((nf, 1))])   # std of the filters
             Eps = (sigf[:, 1:-1] ** 2)        # capture of sigma_f^2 x source^2 with unit sources: entry (c,k) = sigma_ck^2
+            # the other documented form of filters_uncertainty: SAMPLES of the filter functions (n_samples x n_filters x n_domain); the variance
+            # model is the (population) variance over the samples of the capture of every source by every filter. Own random stream.
+            urng = R.rng(4, si)
+            if strat == 3 or urng.integers(2):
+                route = "uncertainty-samples"
+                S = int(urng.integers(2, 9))
+                kexp = urng.integers(4, 13, size=(nf, ns))                 # spread of pair (c,k): 2^-kexp (filters known coarsely ... very precisely)
+                for kk_ in range(ns):
+                    kexp[int(urng.integers(nf)), kk_] = int(urng.integers(4, 6))     # every source has a coarse pair: the objective stays well scaled
+                z = urng.integers(-3, 4, size=(S, nf, ns)).astype(float)
+                z[0] = urng.integers(1, 4, size=(nf, ns)); z[1] = -urng.integers(1, 4, size=(nf, ns))    # no pair without spread
+                samp = A[None] + z * 2.0 ** (-kexp.astype(float))[None]    # exactly representable, positive (A >= 1/4, |deviation| <= 3/16)
+                sampF = [[[F(v) for v in samp[:, c_, k_]] for k_ in range(ns)] for c_ in range(nf)]
+                Eps = np.array([[float(sum((v - sum(col) / S) ** 2 for v in col) / S) for col in row] for row in sampF])   # exact variance, rounded once
+                sigf = as_given(urng, np.concatenate([np.zeros((S, nf, 1)), samp, np.zeros((S, nf, 1))], axis=2), R, "filters_uncertainty", kinds=("same", "fortran", "strided"))
+                R.count("uncertainty samples:%d" % S)
+                R.count("uncertainty samples, smallest spread:2^-%d" % int(kexp.max()))
         A_given = as_given(rng, A.copy(), R, "A", kinds=("same", "fortran", "strided")) if via == "function" else A
         targets = ["inside", "outside"]
         keys = ["s%d_%s" % (si, tk) for tk in targets]
-        if not any(R.want(k) for k in keys):
+        # last step of the history (two thirds of the systems): ALL targets, and possibly a third one, in ONE call with batch_size > 1
+        # (own random stream). The rows of a batch are separate problems: every row of the answer is judged like a single call.
+        brng = R.rng(3, si)
+        batched = bool(brng.integers(3) > 0)
+        btargets = (targets + {"none": [], "inside": ["inside"], "outside": ["outside"]}[str(brng.choice(["none", "inside", "outside"]))]) if batched else []
+        border = [int(j) for j in brng.permutation(len(btargets))]      # row j of the batch is target border[j]
+        bkeys = ["s%d_b%d" % (si, j) for j in range(len(btargets))]
+        if not any(R.want(k) for k in keys + bkeys):
             continue
         # ONE estimator (and one caller-held variance array) per system: the targets are fitted one after the other on it,
         # as a user's session would; the property has to hold for every call of such a history, not only for the first
@@ -78,17 +108,44 @@ def run(R):
                     outE = None
             elif stE != "ok":
                 outE, est = est, None
-        for ti, tk in enumerate(targets):
-            k = keys[ti]
+
+        def add_job(c, st, out, b, st0=None, out0=None):
+            k = c["k"]
+            for key in ("target", "K_kind", "baseline_kind", "eps_kind", "eps_route", "via", "call_index"):
+                R.count("%s:%s" % (key, c[key]))
+            R.count("L1:%s" % (c["L1"] is not None)); R.count("shape:%s" % ("under" if ns > nf else "exact"))
+            if kk == "vector":
+                R.count("K_vector:%s" % ("uniform" if np.all(K == K[0]) else "nonuniform"))
+            if Eps is not None and kk == "vector" and not np.all(K == K[0]) and c["call_index"] > 0:
+                R.count("repeated call with array-valued variance model and non-uniform vector K")
+            if st0 is None:
+                st0, out0 = call(lsq_linear, A, b[None], lb=lb, ub=ub, W=w, K=K, baseline=base, return_pred=True)
+            if Eps is None:
+                R.driver.ask("E" + k, "epsmodel", ns, K_text(K), ms(A), "hetero")
+            else:
+                R.driver.ask("E" + k, "epsmodel", ns, K_text(K), ms(A), "explicit", ms(Eps))
+            job = dict(c=c, st=st, out=out, st0=st0, out0=out0, Ap=Ap, bp=bp, wv=wv)
+            jobs.append(job)
+            if st0 == "ok":
+                rows1.append(dict(job=job, n=ns, K=K, A=A, baseline=base, w=wv, b=b, lb=lb, ub=ub, xhat=np.asarray(out0[0])[0]))
+
+        def gen_row(ti, tk):
             rr = R.rng(2, si, ti)
             xt = lb + dyadic(rr, 0.25, 0.75, 3, size=ns) * (ub - lb)
             b = Ap @ xt + bp
             if tk == "outside":
                 b = b * dyadic(rr, 0.5, 3, 1, size=nf) + 1.0
+            return rr, xt, b
+
+        l1eps = 1e-2
+        rows_of = {}
+        for ti, tk in enumerate(targets):
+            k = keys[ti]
+            rr, xt, b = gen_row(ti, tk)
+            rows_of[ti] = (xt, b)
             l2eps = float(rr.choice([1e-4, 1e-3, 1e-2, 5e-2]))
             useL1 = bool(rr.integers(3) == 0) and tk == "inside"
             L1 = float(np.sum(xt)) if useL1 else None
-            l1eps = 1e-2
             c = dict(k=k, target=tk, nf=nf, ns=ns, A=A, K=K, K_kind=kk, baseline=base, baseline_kind=bk, lb=lb, ub=ub, w=w, b=b, eps_kind=ek,
                      Epsilon=Eps, eps_route=route, l2_eps=l2eps, L1=L1, l1_eps=l1eps, via=via, call_index=ti, earlier_calls=keys[:ti])
             # the implementation is run for every step of the history (also when only a later step is selected by --case)
@@ -98,29 +155,62 @@ def run(R):
                 else:
                     kw = dict(Epsilon=Eps_given) if route == "argument" else {}
                     st, out = call(est.minimize_variance, b[None], l2_eps=l2eps, L1=L1, l1_eps=l1eps, **kw)
-                    if st == "ok" and route in ("uncertainty", "registered"):
+                    if st == "ok" and route in ("uncertainty", "uncertainty-samples", "registered"):
                         c["estimator_Epsilon"] = np.array(est.Epsilon, dtype=float)
             else:
                 ea = "heteroscedastic" if route == "string" else Eps_given
                 st, out = call(lsq_linear_minimize, A_given, b[None], ea, lb=lb, ub=ub, W=w, K=K, baseline=base, l2_eps=l2eps, L1=L1, l1_eps=l1eps, return_pred=True)
             if not R.want(k):
                 continue
-            for key in ("target", "K_kind", "baseline_kind", "eps_kind", "eps_route", "via", "call_index"):
-                R.count("%s:%s" % (key, c[key]))
-            R.count("L1:%s" % useL1); R.count("shape:%s" % ("under" if ns > nf else "exact"))
-            if kk == "vector":
-                R.count("K_vector:%s" % ("uniform" if np.all(K == K[0]) else "nonuniform"))
-            if Eps is not None and kk == "vector" and not np.all(K == K[0]) and ti > 0:
-                R.count("repeated call with array-valued variance model and non-uniform vector K")
-            st0, out0 = call(lsq_linear, A, b[None], lb=lb, ub=ub, W=w, K=K, baseline=base, return_pred=True)
-            if Eps is None:
-                R.driver.ask("E" + k, "epsmodel", ns, K_text(K), ms(A), "hetero")
+            add_job(c, st, out, b)
+        if not batched or not any(R.want(k) for k in bkeys):
+            continue
+        # ---- the batched call
+        nb = len(btargets)
+        for ti in range(len(targets), nb):
+            rows_of[ti] = gen_row(ti, btargets[ti])[1:]
+        Ball = np.array([rows_of[t][1] for t in border])
+        bs = [2, 3, "full"][int(brng.integers(3))]
+        bsn = nb if bs == "full" else bs
+        layout = "batches divide the rows" if nb % bsn == 0 else ("batch larger than the row count" if bsn > nb else "padded last batch")
+        l2eps = float(brng.choice([1e-4, 1e-3, 1e-2, 5e-2]))
+        # ordinary fit of every row (one row at a time): reference for the predicates, and the total intensity requested for an out-of-gamut row
+        fits0 = [call(lsq_linear, A, Ball[j][None], lb=lb, ub=ub, W=w, K=K, baseline=base, return_pred=True) for j in range(nb)]
+        L1arr = None
+        if brng.integers(3) == 0 and all(f[0] == "ok" for f in fits0):
+            # one request per row: the total of the generating intensities (in-gamut rows) / of the ordinary fit (out-of-gamut rows), so that
+            # every row's second-stage set is non-empty
+            L1arr = np.array([float(np.sum(rows_of[t][0])) if btargets[t] == "inside" else float(np.sum(np.clip(np.asarray(fits0[j][1][0])[0], lb, ub))) for j, t in enumerate(border)])
+        Bg = as_given(brng, Ball.copy(), R, "B(batch)", kinds=("same", "fortran", "strided"))
+        R.count("batched call:%d rows, batch_size=%s" % (nb, bs)); R.count("batched call:%s" % layout)
+        R.count("batched call:%s" % ("in- and out-of-gamut rows share a batch" if bsn > 1 and any(len({btargets[t] for t in border[i:i + bsn]}) > 1 for i in range(0, nb, bsn)) else "batches of one kind"))
+        R.count("batched call, L1:%s" % ("none" if L1arr is None else "one request per row"))
+        if via == "estimator":
+            if stE != "ok":
+                st, out = stE, outE
             else:
-                R.driver.ask("E" + k, "epsmodel", ns, K_text(K), ms(A), "explicit", ms(Eps))
-            job = dict(c=c, st=st, out=out, st0=st0, out0=out0, Ap=Ap, bp=bp, wv=wv)
-            jobs.append(job)
-            if st0 == "ok":
-                rows1.append(dict(job=job, n=ns, K=K, A=A, baseline=base, w=wv, b=b, lb=lb, ub=ub, xhat=np.asarray(out0[0])[0]))
+                kw = dict(Epsilon=Eps_given) if route == "argument" else {}
+                st, out = call(est.minimize_variance, Bg, batch_size=bs, l2_eps=l2eps, L1=L1arr, l1_eps=l1eps, **kw)
+        else:
+            ea = "heteroscedastic" if route == "string" else Eps_given
+            st, out = call(lsq_linear_minimize, A_given, Bg, ea, lb=lb, ub=ub, W=w, K=K, baseline=base, l2_eps=l2eps, L1=L1arr, l1_eps=l1eps, batch_size=bs, return_pred=True)
+        if st == "ok":
+            try:
+                outs = [np.asarray(o, dtype=float) for o in out]
+                if len(outs) != 3 or outs[0].shape != (nb, ns) or outs[1].shape != (nb, nf) or outs[2].shape != (nb, nf):
+                    st, out = "shape", "answer of the batched call has shapes %s for %d rows" % ([o.shape for o in outs], nb)
+            except Exception as e_:  # noqa: BLE001
+                st, out = "shape", "answer of the batched call is not three arrays: %s" % e_
+        for j, t in enumerate(border):
+            k = bkeys[j]
+            if not R.want(k):
+                continue
+            c = dict(k=k, target=btargets[t], nf=nf, ns=ns, A=A, K=K, K_kind=kk, baseline=base, baseline_kind=bk, lb=lb, ub=ub, w=w, b=Ball[j], eps_kind=ek,
+                     Epsilon=Eps, eps_route=route, l2_eps=l2eps, L1=(None if L1arr is None else float(L1arr[j])), l1_eps=l1eps, via=via, call_index=len(targets),
+                     earlier_calls=keys, batch=dict(row=j, rows=nb, batch_size=bs, layout=layout, B=Ball, L1=L1arr, kinds=[btargets[t_] for t_ in border]))
+            if st == "ok" and via == "estimator" and route in ("uncertainty", "uncertainty-samples", "registered"):
+                c["estimator_Epsilon"] = np.array(est.Epsilon, dtype=float)
+            add_job(c, st, (tuple(o[j:j + 1] for o in outs) if st == "ok" else out), Ball[j], *fits0[j])
     certify_rows(R, "c9", rows1)       # exact stage-1 optimum (and driver.run for the eps models)
     for r in rows1:
         r["job"]["stage1"] = r
@@ -155,8 +245,17 @@ def run(R):
     for job in jobs:
         c = job["c"]; k = c["k"]
         R.case(c, (k,), sample=(c["eps_kind"] != "default"))
-        sig = "C09:%s:%s" % (c["eps_kind"], c["target"])
+        sig = "C09:%s:%s" % (c["eps_kind"], c["target"]) + (":batched" if "batch" in c else "")
         if job["st"] != "ok":
+            bt = c.get("batch")
+            if bt is not None and bt["layout"] != "batches divide the rows" and bt["L1"] is not None and np.any(c["lb"] > 0) and job["st"] == "runtime":
+                # one combination of options, one signature (whatever the variance model / target kind of the row)
+                R.failB(dict(c, impl_error=job["out"]), "batched minimize_variance with a padded last batch, an L1 request per row and positive lower bounds raised %s: %s" % (job["st"], job["out"]),
+                        "C09:batched:padded-last-batch+L1+positive-lb:raises:runtime"); continue
+            if bt is not None:
+                # the batched call raised as a whole: one signature for all its rows (whatever their variance model / target kind)
+                R.failB(dict(c, impl_error=job["out"]), "batched minimize_variance (%d rows %s, batch_size=%s) raised %s: %s" % (bt["rows"], bt["kinds"], bt["batch_size"], job["st"], job["out"]),
+                        "C09:batched:raises:" + job["st"]); continue
             R.failB(dict(c, impl_error=job["out"]), "minimize_variance raised %s: %s" % (job["st"], job["out"]), sig + ":raises:" + job["st"]); continue
         if "stage1" not in job or not job["stage1"]["kkt_ok"]:
             R.failA(c, "attainable error could not be established exactly"); continue
@@ -180,9 +279,11 @@ def run(R):
         if "estimator_Epsilon" in c:
             em = np.array([[float(v) for v in r_] for r_ in job["EpsM"]])
             # the estimator's default model: registered filter uncertainty (before K-propagation: compare the raw matrix)
-            if np.max(np.abs(c["estimator_Epsilon"] - c["Epsilon"])) > 1e-12:
+            # (entry by entry, relative: the variances of different source/filter pairs differ by orders of magnitude and each one weighs its own source)
+            if c["estimator_Epsilon"].shape != np.shape(c["Epsilon"]) or np.max(np.abs(c["estimator_Epsilon"] - c["Epsilon"])) > 1e-12 \
+                    or np.any(np.abs(c["estimator_Epsilon"] - c["Epsilon"]) > 1e-10 * np.abs(c["Epsilon"]) + 1e-25):
                 R.failB(dict(c), "the estimator's variance model after call %d is not the %s" % (c["call_index"] + 1, "registered variance matrix" if c["eps_route"] == "registered"
-                        else "capture of the registered filter uncertainty"), sig + ":default-eps")
+                        else ("variance of the captures over the registered filter samples" if c["eps_route"] == "uncertainty-samples" else "capture of the registered filter uncertainty")), sig + ":default-eps")
         best = None
         for hi in range(job.get("nh", 0)):
             tt = R.driver.get("v%s_%d" % (k, hi))
